@@ -53,6 +53,8 @@ def _brief(op):
     k = op.get("op")
     if k in ("fire", "zero", "elev"):
         return f"{k}(calc{op['calc']},shot{op['shot']},{(op.get('range') or op.get('dist'))})"
+    if k == "fire_tmp":
+        return f"fire_tmp(calc{op['calc']},table={op['world']['tables'][0]},{op['range']})"
     if k == "mk":
         return f"mk({op['what']})"
     if k == "new_calc":
@@ -88,7 +90,7 @@ def _drop_ops(spec, ti, drop):
         if op.get("op") in ("danger", "at_dist") and op["fire"] in drop:
             drop.add(i)
     # a calculator's new_calc must stay if a kept op uses it
-    used = {op.get("calc") for i, op in enumerate(prog) if i not in drop and op.get("op") in ("fire", "zero", "elev")}
+    used = {op.get("calc") for i, op in enumerate(prog) if i not in drop and op.get("op") in ("fire", "zero", "elev", "fire_tmp")}
     for i, op in enumerate(prog):
         if op.get("op") == "new_calc" and op["calc"] in used:
             drop.discard(i)
